@@ -95,6 +95,8 @@ example : judgeEv [.qnew 1 8 flagBlockWriter true, .enq ⟨1, 1, 8⟩ .ok, .enq 
 -- the poll back end as it was: a wake-up byte garbles the next completion; records beyond max are thrown away
 example : judgeEv [.wakeup 0, .post 1 4097 7 0, .wait 8 [(1048832, 1793)], .wait 8 []] ≠ [] := by decide
 example : judgeEv [.post 1 1 1 0, .post 2 2 2 0, .post 1 3 3 0, .wait 1 [(1, 1)], .wait 1 []] ≠ [] := by decide
+-- a timed join on a live thread that comes back false before its time is up (it stopped polling)
+example : judgeEv [.wnew 1 false, .wjoin 1 50 .rc0 1] ≠ [] := by decide
 -- the clear of call_heart_beat wiped a tick that arrived inside it
 example : judgeEv [.hbowed false] ≠ [] := by decide
 -- verdict lines of the real multi-thread runs
